@@ -1,4 +1,5 @@
 import Juniper.Model.HelpersSlices
+import Juniper.Model.HelpersStdlib
 /-!
 # Models of the `xsort` and `xmaps` helpers (C19)
 
@@ -78,11 +79,18 @@ def merge (less : α → α → Bool) (pop : ((α × Nat) → (α × Nat) → Bo
     (ins : List (List α)) : List α :=
   mergeLoop less pop (totalLen ins + 1) (ins.map List.tail) (mergeInitial 0 ins) []
 
-/-- `xsort.MergeSlices`: `(result, result uses out's backing array)`; `slices.Grow(out[:0], n)`
-reallocates exactly when `n > cap(out)`. -/
+/-- `xsort.MergeSlices`: `(result, result uses out's backing array)`. Whether the caller's buffer is
+re-used is decided by `out = xslices.Grow(out[:0], n)`: the slice expression's bound and the count
+handed to `Grow` are generated, `Grow` is the documented contract of `slices.Grow`
+(`Model/HelpersStdlib.lean`): it keeps the array iff `n` more elements fit the capacity. -/
 def mergeSlices (less : α → α → Bool) (pop : ((α × Nat) → (α × Nat) → Bool) → List (α × Nat) → Option ((α × Nat) × List (α × Nat)))
     (outCap : Int) (ins : List (List α)) : List α × Bool :=
-  (merge less pop ins, decide ((totalLen ins : Int) ≤ outCap))
+  let n := (ins.foldl (fun n l => if msSumBody = ["n += len(in[i])"] then n + (l.length : Int) else n) msN0)
+  let out0 : Stdlib.Sl Unit := ⟨List.replicate outCap.toNat (), msGrowHi.toNat, false⟩   -- `out[:0]`
+  (merge less pop ins,
+    match Stdlib.grow () out0 (msGrowN n) with
+    | some r => !r.fresh
+    | none => false)
 
 /-! ## MinK -/
 
@@ -134,10 +142,10 @@ def mapReverse [DecidableEq κ] [DecidableEq ν] : List (κ × ν) → List (ν 
 
 /-- `xmaps.ReverseSingle` (the map is visited in the order of the list) -/
 def mapReverseSingle [DecidableEq κ] [DecidableEq ν] : List (κ × ν) → List (ν × κ) × Bool
-  | [] => ([], true)
+  | [] => ([], rsOk0)
   | (k, v) :: rest =>
     let (r, ok) := mapReverseSingle rest
-    (mput r v k, ok && (mget r v).isNone)
+    (mput r v k, if rsDup (mget r v).isSome then rsDupVal else ok)
 
 /-- `xmaps.ToIndex` -/
 def toIndexFrom [DecidableEq κ] : Nat → List κ → List (κ × Nat) → List (κ × Nat)
@@ -147,12 +155,12 @@ def toIndexFrom [DecidableEq κ] : Nat → List κ → List (κ × Nat) → List
 def toIndex [DecidableEq κ] (keys : List κ) : List (κ × Nat) := toIndexFrom 0 keys []
 
 def fromKVLoop [DecidableEq κ] : List κ → List ν → List (κ × ν) → Bool → List (κ × ν) × Bool
-  | k :: ks, v :: vs, m, ok => fromKVLoop ks vs (mput m k v) (ok && (mget m k).isNone)
+  | k :: ks, v :: vs, m, ok => fromKVLoop ks vs (mput m k v) (if fkvDup (mget m k).isSome then fkvDupVal else ok)
   | _, _, m, ok => (m, ok)
 
 /-- `xmaps.FromKeysAndValues`; `none` = panic -/
 def fromKeysAndValues [DecidableEq κ] (keys : List κ) (values : List ν) : Option (List (κ × ν) × Bool) :=
-  if keys.length ≠ values.length then none else some (fromKVLoop keys values [] true)
+  if fkvPanics keys.length values.length then none else some (fromKVLoop keys values [] fkvOk0)
 
 /-- `xmaps.Union` -/
 def setUnion [DecidableEq κ] (sets : List (List κ)) : List κ :=
@@ -166,19 +174,32 @@ def insertBySize (s : List κ) : List (List κ) → List (List κ)
 
 def sortBySize (sets : List (List κ)) : List (List κ) := sets.foldr insertBySize []
 
+/-- the inner loop of `Intersection`: the value of `include` after
+`for j := J0; j < len(sets); j++ { if _, ok := sets[j][k]; miss(ok) { include = missVal; break } }`
+(start index, miss guard and both values of `include` are generated; the loop condition, `j++` and
+`break` are pinned by `Proofs/HelpersShapes.lean`) -/
+def interInclude [DecidableEq κ] (k : κ) (sorted : List (List κ)) : Bool :=
+  if (sorted.drop interJ0.toNat).all (fun t => !interMiss (decide (k ∈ t))) then interInclude0 else interMissVal
+
 /-- `xmaps.Intersection` -/
 def setIntersection [DecidableEq κ] (sets : List (List κ)) : List κ :=
+  if interEmpty sets.length then [] else
   match sortBySize sets with
   | [] => []
-  | s0 :: rest => s0.filter (fun k => rest.all (fun t => decide (k ∈ t)))
+  | s0 :: rest => s0.filter (fun k => interStores (interInclude k (s0 :: rest)))
+
+/-- the inner loop of `Intersects` (as `interInclude`, from the facts of `Intersects`) -/
+def intsInclude [DecidableEq κ] (k : κ) (sorted : List (List κ)) : Bool :=
+  if (sorted.drop intsJ0.toNat).all (fun t => !intsMiss (decide (k ∈ t))) then intsInclude0 else intsMissVal
 
 /-- `xmaps.Intersects` -/
 def setIntersects [DecidableEq κ] (sets : List (List κ)) : Bool :=
+  if intsEmpty sets.length then intsEmptyRet else
   match sortBySize sets with
-  | [] => false
-  | s0 :: rest => s0.any (fun k => rest.all (fun t => decide (k ∈ t)))
+  | [] => intsEndRet
+  | s0 :: rest => if s0.any (fun k => intsHit (intsInclude k (s0 :: rest))) then intsHitRet else intsEndRet
 
 /-- `xmaps.Difference` -/
-def setDifference [DecidableEq κ] (a b : List κ) : List κ := a.filter (fun k => decide (k ∉ b))
+def setDifference [DecidableEq κ] (a b : List κ) : List κ := a.filter (fun k => diffKeeps (decide (k ∈ b)))
 
 end Juniper.Model.Helpers
